@@ -789,11 +789,11 @@ int main(int argc, char **argv)
         }
         if (pcfgs[pi].pmtu == 0 && !pcfgs[pi].eager)
         {
-            /* 700 (thorough 70000) replays: past the 510 at which a byte-wise epoch counter wraps, and past 65536 */
+            /* 1500 (thorough 70000) replays: past the 510 at which a byte-wise epoch counter wraps, past the 1401 at which a byte-wise "largest sequence number" saturates 48 bits, and past 65536 */
             int v;
             for (v = 0; v < 2; v++)
             {
-                devi_t a = { v, thorough ? 70000 : 700, 0 };
+                devi_t a = { v, thorough ? 70000 : 1500, 0 };
                 add_case(pi, -2, a, none);
             }
         }
